@@ -24,3 +24,22 @@ package accountmanager
 //@ ensures [failed] req != nil && result0.State != pb.ResponseState_SUCCEEDED ==> len(result0.PublicKey) == 0 && len(result0.Participants) == 0
 //@ loop #1
 //@ invariant [range] 0 <= _n && _n <= len(participants) && res != nil && fresh(res) && len(res.Participants) == len(participants) && fresh(res.Participants)
+
+// ---- construction: the object handed out has every collaborator the methods rely on ----
+//@ func (Parameter).apply
+//@ requires p != nil
+//@ modifies p.logLevel, p.accountManager, p.process
+
+//@ func parseAndCheckParameters
+// (the guard in the loop tests the slice, not the option: a nil option would panic; every caller passes non-nil options)
+//@ requires [options] forall i int :: 0 <= i && i < len(params) ==> params[i] != nil
+//@ ensures [err] result1 != nil ==> result0 == nil
+//@ ensures [ok] result1 == nil ==> result0 != nil && result0.accountManager != nil && result0.process != nil
+//@ loop #1
+//@ invariant [range] 0 <= _n && _n <= len(params)
+
+//@ func New
+//@ requires [options] forall i int :: 0 <= i && i < len(params) ==> params[i] != nil
+//@ modifies log
+//@ ensures [err] result1 != nil ==> result0 == nil
+//@ ensures [ok] result1 == nil ==> wiredAMHandler(result0)
